@@ -231,6 +231,9 @@ class ArrInterp(ResultInterp):
                 return a if wide else LabelKeys(a.value, a.casts + (tag,))
             if name in ("copy", "ravel", "flatten", "tolist"):
                 return a
+            if name == "reshape" and (args == [-1] or args == [(-1,)]):
+                # a 1-D view: a scalar label becomes the one-element vector
+                return a if isinstance(a.value, (list, tuple)) else LabelKeys([a.value], a.casts, a.fits)
             return Unknown(f"labels.{name}")
         if isinstance(a, AMask):
             if name == "astype":
